@@ -113,5 +113,120 @@ package webtransport
 //@   ensures [C13.f1] result == nil ==> w.c.stream.$writes == old(w.c.stream.$writes) + 1
 //@   ensures [C13.f0] result != nil ==> w.c.stream.$writes == old(w.c.stream.$writes)
 //@   ensures [C13.fin] result == nil && final ==> w.err != nil && w.c.writer == nil
-//@   ensures [C13.cont] result == nil && !final ==> w.err == nil && w.pos == 9
+//@   ensures [C13.cont] result == nil && !final ==> w.err == nil && w.pos == 9 && w.c.writeBuf == old(w.c.writeBuf)
+//@   ensures [C13.ferr] result != nil ==> w.err != nil
+//@   ensures [C13.fbuf] (w.c.writePool == nil ==> w.c.writeBuf == old(w.c.writeBuf)) && (w.c.writeBuf == old(w.c.writeBuf) || w.c.writeBuf == nil)
 //@   ensures !w.c.isWriting
+
+// ---- write paths (C13): one message = one frame -----------------------------------------------------
+// w.c.stream.$writes counts successful write operations on the stream; every flushFrame is one of them.
+// "wbOK" is the buffer invariant of an open message writer.
+
+//@ func (*messageWriter).endMessage(err)
+//@   props C13, C09
+//@   requires w != nil && (w.err == nil ==> w.c != nil)
+//@   modifies w.err, w.c.writer, w.c.writeBuf
+//@   ensures result == err
+//@   ensures old(w.err) == nil ==> w.err == err && w.c.writer == nil
+//@   ensures old(w.err) != nil ==> w.err == old(w.err)
+//@   ensures old(w.err) != nil || w.c.writePool == nil ==> w.c.writeBuf == old(w.c.writeBuf)
+//@   ensures w.c.writeBuf == old(w.c.writeBuf) || w.c.writeBuf == nil
+
+//@ func (*messageWriter).ncopy(max)
+//@   props C13, C09
+//@   requires w != nil && w.c != nil && w.c.stream != nil && w.err == nil && !w.c.isWriting && max > 0
+//@   requires len(w.c.writeBuf) > 9 && 9 <= w.pos && w.pos <= len(w.c.writeBuf)
+//@   requires w.frameType == TextMessage || w.frameType == BinaryMessage
+//@   modifies w.pos, w.frameType, w.err, w.c.writer, w.c.writeBuf, w.c.isWriting, w.c.writeErr, w.c.stream.$writes, Mem(w.c.writeBuf)[0:9]
+//@   ensures [C13.nflush] result1 == nil ==> w.c.stream.$writes == old(w.c.stream.$writes) && w.pos == old(w.pos) && w.frameType == old(w.frameType)
+//@   ensures result1 == nil ==> 0 < result0 && result0 <= max && result0 <= len(w.c.writeBuf) - w.pos
+//@   ensures result1 == nil ==> w.err == nil && w.c.writeBuf == old(w.c.writeBuf) && !w.c.isWriting && 9 <= w.pos
+//@   ensures result1 != nil ==> result0 == 0
+
+//@ func (*messageWriter).Write(p)
+//@   props C13, C09
+//@   requires w != nil && w.c != nil && w.c.stream != nil && !w.c.isWriting
+//@   requires w.err == nil ==> len(w.c.writeBuf) > 9 && 9 <= w.pos && w.pos <= len(w.c.writeBuf) && (w.frameType == TextMessage || w.frameType == BinaryMessage)
+//@   requires backing(p) != backing(w.c.writeBuf)
+//@   modifies w.pos, w.frameType, w.err, w.c.writer, w.c.writeBuf, w.c.isWriting, w.c.writeErr, w.c.stream.$writes, Mem(w.c.writeBuf)
+//@   loop 1 invariant backing(p) == backing(old(p)) && off(p) == off(old(p)) + (w.pos - old(w.pos)) && 0 <= len(p) && len(p) <= len(old(p))
+//@   loop 1 invariant w.err == nil && !w.c.isWriting && w.c.writeBuf == old(w.c.writeBuf) && 9 <= w.pos && w.pos <= len(w.c.writeBuf)
+//@   loop 1 invariant w.frameType == old(w.frameType) && w.c.stream.$writes == old(w.c.stream.$writes)
+//@   loop 1 invariant w.pos == old(w.pos) + (len(old(p)) - len(p))
+//@   loop 1 invariant forall k int :: old(w.pos) <= k && k < w.pos ==> w.c.writeBuf[k] == old(p[k - w.pos])
+//@   loop 1 invariant forall k int :: 9 <= k && k < old(w.pos) ==> w.c.writeBuf[k] == old(w.c.writeBuf[k])
+//@   loop 1 decreases len(p)
+//@   ensures [C13.oneframe] result1 == nil ==> w.c.stream.$writes == old(w.c.stream.$writes)
+//@   ensures [C13.count]    result1 == nil && old(w.err) == nil ==> result0 == len(p) && w.pos == old(w.pos) + len(p) && w.err == nil
+//@   ensures [C13.content]  result1 == nil && old(w.err) == nil ==> forall k int :: old(w.pos) <= k && k < w.pos ==> w.c.writeBuf[k] == old(p[k - w.pos])
+//@   ensures [C13.keep]     result1 == nil && old(w.err) == nil ==> forall k int :: 9 <= k && k < old(w.pos) ==> w.c.writeBuf[k] == old(w.c.writeBuf[k])
+//@   ensures [C13.sameBuf]  result1 == nil && old(w.err) == nil ==> w.c.writeBuf == old(w.c.writeBuf) && w.frameType == old(w.frameType) && !w.c.isWriting
+//@   ensures [C13.errw]     old(w.err) != nil ==> result1 == old(w.err) && result0 == 0
+
+//@ func (*messageWriter).Close()
+//@   props C13, C09
+//@   requires w != nil && w.c != nil && w.c.stream != nil && !w.c.isWriting
+//@   requires w.err == nil ==> len(w.c.writeBuf) >= 9 && 9 <= w.pos && w.pos <= len(w.c.writeBuf) && (w.frameType == TextMessage || w.frameType == BinaryMessage)
+//@   modifies w.pos, w.frameType, w.err, w.c.writer, w.c.writeBuf, w.c.isWriting, w.c.writeErr, w.c.stream.$writes, Mem(w.c.writeBuf)[0:9]
+//@   ensures [C13.close1] result == nil ==> w.c.stream.$writes == old(w.c.stream.$writes) + 1
+//@   ensures [C13.close0] result != nil ==> w.c.stream.$writes == old(w.c.stream.$writes)
+//@   ensures [C13.closed] w.err != nil
+//@   ensures [C13.cbuf] (w.c.writePool == nil ==> w.c.writeBuf == old(w.c.writeBuf)) && (w.c.writeBuf == old(w.c.writeBuf) || w.c.writeBuf == nil) && !w.c.isWriting
+//@   callsite (*messageWriter).flushFrame#1
+//@     assert [C13.closefinal] $final && len($extra) == 0
+
+//@ spec wOK(w *messageWriter) bool = w != nil && w.c != nil && w.c.stream != nil && !w.c.isWriting && (w.err == nil ==> len(w.c.writeBuf) > 9 && 9 <= w.pos && w.pos <= len(w.c.writeBuf) && (w.frameType == TextMessage || w.frameType == BinaryMessage))
+
+//@ func NewConn(session, stream, isServer, readBufferSize, writeBufferSize, writeBufferPool, br, writeBuf)
+//@   props C13, C10, C09
+//@   requires writeBuf == nil || len(writeBuf) > 9
+//@   requires writeBufferSize <= 0x1000000 && readBufferSize >= 0
+//@   modifies nothing
+//@   ensures [C13.new] result != nil && fresh(result) && result.stream == stream && result.session == session && result.isServer == isServer
+//@   ensures [C13.newbuf] (writeBufferPool == nil ==> len(result.writeBuf) > 9) && (result.writeBuf == nil || len(result.writeBuf) > 9) && result.writeBufSize > 9 && result.writeBufSize <= 0x1000009
+//@   ensures [C13.newstate] result.writer == nil && result.reader == nil && result.readErr == nil && result.writeErr == nil && !result.isWriting
+//@   ensures [C10.newlimit] result.readLimit == 0 && result.readRemaining == 0 && result.readLength == 0 && result.readErrCount == 0
+//@   ensures [C13.newpool] result.writePool == writeBufferPool && (br != nil ==> result.br == br) && result.br != nil
+
+//@ func (*Conn).beginMessage(mw, messageType)
+//@   props C13, C09
+//@   requires c != nil && c.stream != nil && mw != nil && !c.isWriting && c.writeBufSize > 9 && c.writeBufSize <= 0x1000009
+//@   requires c.writer != nil ==> typeis(c.writer, *messageWriter) && wOK(unbox(c.writer, *messageWriter)) && unbox(c.writer, *messageWriter).c == c && unbox(c.writer, *messageWriter) != mw
+//@   requires c.writeBuf == nil ==> c.writePool != nil
+//@   requires c.writeBuf != nil ==> len(c.writeBuf) > 9
+//@   modifies c.writer, c.writeBuf, c.isWriting, c.writeErr, c.stream.$writes, Mem(c.writeBuf)[0:9], mw.c, mw.frameType, mw.pos
+//@   modifies unbox(c.writer, *messageWriter).pos, unbox(c.writer, *messageWriter).frameType, unbox(c.writer, *messageWriter).err if c.writer != nil
+//@   ensures [C13.begin] result == nil ==> mw.c == c && mw.frameType == messageType && mw.pos == 9 && (messageType == TextMessage || messageType == BinaryMessage)
+//@   ensures [C13.beginbuf] result == nil ==> len(c.writeBuf) > 9 && !c.isWriting
+//@   ensures [C13.beginw] c.writer == nil
+//@   ensures [C13.beginsame] old(c.writeBuf) != nil && (old(c.writer) == nil || c.writePool == nil) ==> c.writeBuf == old(c.writeBuf)
+//@   ensures [C13.prev] (c.stream.$writes == old(c.stream.$writes) || c.stream.$writes == old(c.stream.$writes) + 1) && (old(c.writer) == nil ==> c.stream.$writes == old(c.stream.$writes))
+
+//@ func (*Conn).NextWriter(messageType)
+//@   props C13, C09
+//@   requires c != nil && c.stream != nil && !c.isWriting && c.writeBufSize > 9 && c.writeBufSize <= 0x1000009 && c.writePool == nil
+//@   requires c.writer != nil ==> typeis(c.writer, *messageWriter) && wOK(unbox(c.writer, *messageWriter)) && unbox(c.writer, *messageWriter).c == c
+//@   requires c.writeBuf == nil ==> c.writePool != nil
+//@   requires c.writeBuf != nil ==> len(c.writeBuf) > 9
+//@   modifies c.writer, c.writeBuf, c.isWriting, c.writeErr, c.stream.$writes, Mem(c.writeBuf)[0:9]
+//@   modifies unbox(c.writer, *messageWriter).pos, unbox(c.writer, *messageWriter).frameType, unbox(c.writer, *messageWriter).err if c.writer != nil
+//@   ensures [C13.nw] result1 == nil ==> typeis(result0, *messageWriter) && c.writer == result0 && fresh(unbox(result0, *messageWriter))
+//@   ensures [C13.nwok] result1 == nil ==> wOK(unbox(result0, *messageWriter)) && unbox(result0, *messageWriter).c == c && unbox(result0, *messageWriter).err == nil
+//@   ensures [C13.nwstate] result1 == nil ==> unbox(result0, *messageWriter).pos == 9 && unbox(result0, *messageWriter).frameType == messageType
+//@   ensures [C13.nwnone] old(c.writer) == nil ==> c.stream.$writes == old(c.stream.$writes)
+//@   ensures result1 != nil ==> result0 == nil
+
+//@ func (*Conn).WriteMessage(messageType, data)
+//@   props C13, C09
+//@   requires c != nil && c.stream != nil && !c.isWriting && c.writeBufSize > 9 && c.writeBufSize <= 0x1000009 && c.writer == nil && c.writePool == nil
+//@   requires c.writeBuf == nil ==> c.writePool != nil
+//@   requires c.writeBuf != nil ==> len(c.writeBuf) > 9
+//@   requires backing(data) != backing(c.writeBuf) || c.writeBuf == nil
+//@   modifies c.writer, c.writeBuf, c.isWriting, c.writeErr, c.stream.$writes, Mem(c.writeBuf)
+//@   ensures [C13.wm1] result == nil ==> c.stream.$writes == old(c.stream.$writes) + 1
+//@   ensures [C13.wm0] c.stream.$writes == old(c.stream.$writes) || c.stream.$writes == old(c.stream.$writes) + 1
+//@   callsite (*messageWriter).flushFrame#1
+//@     assert [C13.wmfinal] $final && $w.frameType == messageType
+//@     assert [C13.wmlen]   $w.pos - 9 + len($extra) == len(old(data))
+//@     assert [C13.wmhead]  forall k int :: 0 <= k && k < $w.pos - 9 ==> c.writeBuf[9 + k] == old(data[k])
+//@     assert [C13.wmtail]  backing($extra) == backing(old(data)) && off($extra) == off(old(data)) + ($w.pos - 9)
